@@ -3,6 +3,7 @@ package dsim
 import (
 	"fmt"
 	"io"
+	"os"
 	"sort"
 	"strings"
 	"sync"
@@ -149,6 +150,8 @@ func (w *cnWorld) installYields(every map[string]int, budget int) {
 			budget--
 			yp = &yieldPark{site: site, ch: make(chan struct{})}
 			w.yielded = append(w.yielded, yp)
+			// canonical order (at most one goroutine can sit at a given site here)
+			sort.Slice(w.yielded, func(i, j int) bool { return w.yielded[i].site < w.yielded[j].site })
 			w.e.ParkBegin(true)
 		}
 		w.mu.Unlock()
@@ -179,9 +182,8 @@ func (w *cnWorld) task(name string, f func()) bool {
 }
 
 // build creates the connection and plans the traffic.
-func c14Build(e *Env, sweep bool) *cnWorld {
+func c14Build(e *Env, sweep bool, w *cnWorld) *cnWorld {
 	t := e.T
-	w := &cnWorld{e: e, forcedCN: map[int]bool{}}
 	w.sc = newSimConn(e, "c0", drawAddr(t, 3868), drawAddr(t, 40000))
 	if t.Chance(1, 4) {
 		w.sc.MaxRead = t.Range(1, 200)
@@ -245,7 +247,17 @@ func (w *cnWorld) appendUndecodable(t *Tape, big bool) {
 func c14Run(e *Env, script []int) {
 	t := e.T
 	e.maxStep = 120
-	w := c14Build(e, script != nil)
+	// yield sites: the hook is installed before any library goroutine exists
+	every := map[string]int{}
+	for _, s := range []string{"sr.read.enter", "sr.read.unlocked", "serve.read.ok", "serve.handler.done", "copier.notify"} {
+		if script != nil || t.Chance(2, 5) {
+			every[s] = t.Range(1, 3)
+		}
+	}
+	w := &cnWorld{e: e, forcedCN: map[int]bool{}}
+	w.installYields(every, 10)
+	defer func() { diam.VerifYield = nil }()
+	c14Build(e, script != nil, w)
 	if script != nil {
 		w.term = []string{"peer-eof", "rst", "undecodable", "local-close"}[script[0]]
 		script = script[1:]
@@ -253,15 +265,6 @@ func c14Run(e *Env, script []int) {
 	if w.term == "undecodable" {
 		w.appendUndecodable(t, script == nil && t.Chance(1, 2))
 	}
-	// yield sites
-	every := map[string]int{}
-	for _, s := range []string{"sr.read.enter", "sr.read.unlocked", "serve.read.ok", "serve.handler.done", "copier.notify"} {
-		if script != nil || t.Chance(2, 5) {
-			every[s] = t.Range(1, 3)
-		}
-	}
-	w.installYields(every, 10)
-	defer func() { diam.VerifYield = nil }()
 	e.Probe("term:" + w.term)
 	e.Act("plan", "msgs=%d term=%s yields=%d", len(w.msgs), w.term, len(every))
 	w.quiesceCheck()
@@ -302,6 +305,13 @@ func c14Run(e *Env, script []int) {
 			if w.term != "local-close" || hasConn {
 				acts = append(acts, act{"terminate", wt})
 			}
+		}
+		if os.Getenv("VERIF_DEBUG_ACTS") != "" {
+			ks := ""
+			for _, x := range acts {
+				ks += x.kind + " "
+			}
+			e.Obs("enabled: %s parked=%d yielded=%d", ks, np, ny)
 		}
 		var a act
 		if script != nil {
